@@ -157,6 +157,20 @@ def covered_events_removed(ctx, s):
             # ... or after finding that a marker at least as new is already stored (the write is then skipped)
             newer_stored = s.edges_where(fn, lambda f: f[0] == "le" and any(
                 contains_value(a, lambda y: y[0] == "call" and y[1].endswith("::when_is_naddr_deleted")) for a, k_ in f[1][1]))
+            # the same test written on the Time values themselves (`existing >= request.created_at()`)
+
+            def _stored_not_older(f):
+                if f[0] != "true" or f[1][0] != "call":
+                    return False
+                nm = f[1][1].rsplit("::", 1)[-1]
+                if nm not in ("ge", "gt", "le", "lt") or "PartialOrd" not in f[1][1] or len(f[1][2]) != 2:
+                    return False
+                a0, a1 = f[1][2]
+                if nm in ("le", "lt"):
+                    a0, a1 = a1, a0
+                return (contains_value(a0, lambda y: y[0] == "call" and y[1].endswith("::when_is_naddr_deleted")) and
+                        contains_value(a1, acc("created_at", ev)))
+            newer_stored = newer_stored + s.edges_where(fn, _stored_not_older)
             after_mark = any(s.must_pass(fn, b, (s.ok_edges_of_call(fn, mb) or [mb]) + newer_stored) for mb, _ in mk)
             ok = oku and okc and after_mark
             s.add("S-ORDER", fn, "covered-events-removed", cls, info["sp"], PROVED if ok else VIOLATION,
